@@ -288,8 +288,10 @@ func (b *bctx) build(cls string) (p plan, ok bool) {
 			return one(b.msg(code, half(b.goodPayload(name))))
 		case name + "_WrongType":
 			return one(b.msg(code, enc([]interface{}{"a string where a number belongs", []interface{}{}, b.rnd(40)})))
-		case name + "_Garbage":
-			return one(b.msg(code, b.rnd(1+b.rng.Intn(300))))
+		case name + "_Garbage": // random bytes that do not start an RLP list (every payload type is a list)
+			g := b.rnd(1 + b.rng.Intn(300))
+			g[0] = byte(b.rng.Intn(0xc0))
+			return one(b.msg(code, g))
 		case name + "_Trailing": // a good payload followed by extra bytes
 			return one(b.msg(code, append(b.goodPayload(name), b.rnd(9)...)))
 		}
@@ -303,10 +305,10 @@ func (b *bctx) build(cls string) (p plan, ok bool) {
 		return one(append([]byte{0x5a, 0x49, 0, 0, 0, 16}, b.rnd(16)...))
 	case "HsZeroLen":
 		return one(raw(0, nil))
-	case "HsOverLen": // above the handshake reader's own limit
-		return one(raw(uint32(p2p.PackageMaxLen)+1, nil))
+	case "HsOverLen": // above the handshake reader's own limit of today (1 GiB)
+		return one(raw((1<<30)+1, nil))
 	case "HsHugeLenTrunc": // length field 1 GiB (accepted by the reader), ten bytes, EOF
-		return cut(raw(uint32(p2p.PackageMaxLen), b.rnd(10)))
+		return cut(raw(1<<30, b.rnd(10)))
 	case "HsLen64MTrunc":
 		return cut(raw(64<<20, b.rnd(10)))
 	case "HsTruncHeader":
@@ -504,6 +506,8 @@ func (b *bctx) build(cls string) (p plan, ok bool) {
 			binary.BigEndian.PutUint32(d.Pack[i][:], uint32(i))
 		}
 		return plan{chunks: [][]byte{b.msg(cConfs, enc(d))}, noSplit: true}, true
+	case "DiscRes_HugeSizeHeader": // list header 2 GiB, Sequence 1, list header ~2 GiB, string header 1 GiB, a few bytes
+		return one(b.msg(cDiscRes, append([]byte{0xfb, 0x7f, 0xff, 0xff, 0xff, 0x01, 0xfb, 0x7f, 0x00, 0x00, 0x00, 0xbb, 0x40, 0x00, 0x00, 0x00}, b.rnd(24)...)))
 	case "DiscReq_SeqMax":
 		return one(b.msg(cDiscReq, enc(&network.DiscoverReqData{Sequence: ^uint(0)})))
 	case "DiscRes_Invalid":
